@@ -641,6 +641,9 @@ def _with_optional_kwargs(
 @hide_trace
 def _parse_kwargs(kwargs: GuppyKwargs) -> UnitaryFlags:
     """Parses the kwargs dict specified in the `@guppy` decorator."""
+    # Work on a copy: the same dict is parsed again when a decorator object like
+    # `guppy(control=True)` is applied to a second function
+    kwargs = kwargs.copy()
     flags = UnitaryFlags.NoFlags
     if kwargs.pop("unitary", False):
         flags |= UnitaryFlags.Unitary
